@@ -219,6 +219,6 @@ theorem strip_unresolvable (s : State) (i : String) : s.stripAnn.resolveAnn (.id
 /-! ### Non-vacuity -/
 example : (run demo).resolveAnn (.id "a1") = some 1 ∧ (run demo).resolveAnn (.id "a0") = none ∧
     (run demo).lookupAnn "!A1" = some 1 ∧ (run demo).lookupAnn "!A0" = none ∧ (run demo).lookupAnn "!R1" = none := by decide
-example : tempId 'A' "!A12" = some 12 ∧ tempId 'A' "!A+3" = some 3 ∧ tempId 'A' "!A1x" = none ∧ tempId 'A' "!Éx" = none := by decide
+example : tempId 'A' "!A12" = some 12 ∧ tempId 'A' "!A+3" = none ∧ tempId 'A' "!A1x" = none ∧ tempId 'A' "!Éx" = none := by decide
 
 end Stam.C03
